@@ -331,10 +331,14 @@ def _convert_node(node: ast.stmt | ast.expr) -> libsbml.ASTNode:
 
 
 def _handle_body(stmts: list[ast.stmt]) -> libsbml.ASTNode:
-    code = libsbml.ASTNode()
     for stmt in stmts:
         code = _convert_node(stmt)
-    return code
+        if isinstance(stmt, ast.Return):
+            # The function returns here, whatever follows is never reached
+            return code
+
+    msg = "Model function cannot return `None`"
+    raise ValueError(msg)
 
 
 def _tree_to_sbml(
